@@ -778,7 +778,7 @@ class Builtins(OpsMixin, LoopsMixin):
     NUMERIC_CLASSES = {"int": ("VInt", "VBool"), "Integral": ("VInt", "VBool"), "float": ("VReal",),
                        "Number": ("VInt", "VBool", "VReal"), "Real": ("VInt", "VBool", "VReal"),
                        "bool": ("VBool",), "str": ("VStr",), "bytes": ("VBytes",), "slice": ("VSliceV",),
-                       "np.bool_": ("VBool",), "np.str_": (), "np.ndarray": ("VOpaque",), "type": ("VClass",)}
+                       "np.bool_": ("VBool",), "np.str_": (), "np.ndarray": ("VOpaque",), "type": ("VClass",), "np.void": ()}
 
     def isinstance_cond(self, ex, p, v, names):
         """z3 Bool: isinstance(v, any of names)."""
